@@ -172,12 +172,15 @@ def uni_data(d):
             _U[d] = np.random.RandomState(13).beta(0.5, 0.5, 60) * 3.0 + 1.0      # Beta wins the selection
         elif d == 'P':
             _U[d] = np.array([1.0] * 21 + [0.0] * 29)     # scipy's beta.fit raises on this column
+        elif d == 'T':
+            _U[d] = 5000.0 + 0.005 * np.random.RandomState(14).normal(size=40)      # spread 1e-6 of the magnitude, yet not constant
         else:
             raise KeyError(d)
     return _U[d].copy()
 
 
-UNI_X = np.concatenate([np.linspace(-30.0, 120.0, 31), [3.5, -1.0, 3.5 + 1e-9, -1.0 - 1e-9, 0.0, 1e-9, -1e-9, 1.0, 2.5]])
+UNI_X = np.concatenate([np.linspace(-30.0, 120.0, 31), [3.5, -1.0, 3.5 + 1e-9, -1.0 - 1e-9, 0.0, 1e-9, -1e-9, 1.0, 2.5],
+                        5000.0 + np.array([-0.02, -0.004, 0.0, 0.003, 0.011])])
 UNI_Q = np.array([0.001, 0.05, 0.25, 0.5, 0.75, 0.95, 0.999])
 
 
@@ -188,9 +191,10 @@ class UniBinding(Binding):
     methods = ('pdf', 'cdf', 'ppf')
     json_ok = True
 
-    def __init__(self, clsname, cfgs=None, draw=()):
+    def __init__(self, clsname, cfgs=None, draw=(), more_data=()):
         self.clsname = clsname
         self.name = clsname
+        self.valid = tuple(self.valid) + tuple(more_data)
         self._cfgs = cfgs or {'c1': {}}
         self.cfgs = tuple(sorted(self._cfgs))
         self.draw_cfgs = tuple(draw)
@@ -503,9 +507,9 @@ def all_bindings():
     tg = {'c1': {}, 'c2': {'minimum': -5.0, 'maximum': 150.0}}
     kde = {'c1': {}, 'c2': {'bw_method': 'silverman'}, 'c3': {'sample_size': 25}}
     out = [
-        UniBinding('GaussianUnivariate'), UniBinding('UniformUnivariate'), UniBinding('BetaUnivariate'),
+        UniBinding('GaussianUnivariate', more_data=('T',)), UniBinding('UniformUnivariate', more_data=('T',)), UniBinding('BetaUnivariate'),
         UniBinding('GammaUnivariate'), UniBinding('LogLaplace'), UniBinding('StudentTUnivariate'),
-        UniBinding('TruncatedGaussian', tg), UniBinding('GaussianKDE', kde, draw=('c3',)),
+        UniBinding('TruncatedGaussian', tg), UniBinding('GaussianKDE', kde, draw=('c3',), more_data=('T',)),
         SelectingBinding(),
         BiBinding('Clayton'), BiBinding('Frank'), BiBinding('Gumbel'),
         GaussBinding(2), GaussBinding(3), GaussBinding(3, conditional=True),
